@@ -250,6 +250,7 @@ func outLast() any                               { return nil }
 //@ loop 1 decreases [C04] (l.srcEnd-l.srcPos)*2 + ite(ch >= 0, 1, 0)
 //@ loop 2 invariant [C04] ws-monotone: l.srcPos >= loopEntry(l.srcPos) && l.srcPos <= l.srcEnd
 //@ loop 2 decreases [C04] (l.srcEnd-l.srcPos)*2 + ite(ch >= 0, 1, 0)
+//@ ensures [C03] whitespace-set: whitespace == 1<<'\t'|1<<'\n'|1<<'\r'|1<<' '
 //@ ensures [C03] value-is-token-text: lval.str == callret[string](l.tokenText, 0) && ncalls(l.tokenText) == 1
 //@ ensures [C04] errors-only-grow: len(l.errors) >= old(len(l.errors))
 //@ ensures [C04] buffer-unchanged: sameSlice(l.srcBuf, old(l.srcBuf)) && l.srcEnd == old(l.srcEnd)
@@ -302,7 +303,8 @@ func outLast() any                               { return nil }
 //@ loop 1 invariant [C03] lookahead-just-read-inv: ch >= 0 && ch < 128 ==> l.lastCharLen == 1 && l.srcPos >= 1 && rune(l.srcBuf[l.srcPos-1]) == ch
 //@ loop 1 invariant [C04] buffer-same: sameSlice(l.srcBuf, old(l.srcBuf)) && l.srcEnd == old(l.srcEnd)
 //@ loop 1 invariant [C04] monotone: l.srcPos >= old(l.srcPos)
-//@ ensures [C03] resumes-right-after-close: old(ch) == '*' && len(l.errors) == old(len(l.errors)) ==> l.srcPos-l.lastCharLen >= 2 && l.srcBuf[l.srcPos-l.lastCharLen-1] == '/' && l.srcBuf[l.srcPos-l.lastCharLen-2] == '*'
+//@ loop 1 invariant [C03 C04] body-started: ch >= 0 ==> l.srcPos >= old(l.srcPos) + 1
+//@ ensures [C03] resumes-right-after-close: old(ch) == '*' && len(l.errors) == old(len(l.errors)) ==> l.srcPos-l.lastCharLen >= 2 && l.srcBuf[l.srcPos-l.lastCharLen-1] == '/' && l.srcBuf[l.srcPos-l.lastCharLen-2] == '*' && l.srcPos-l.lastCharLen-2 >= old(l.srcPos)
 //@ modifies l.srcPos, l.lastCharLen, l.column, l.line, l.lastLineLen, l.errors, l.tokEnd
 //@ loop 1 invariant [C04] errors-grow: len(l.errors) >= old(len(l.errors))
 //@ ensures [C04] progress: l.srcPos >= old(l.srcPos) && l.srcPos <= l.srcEnd
